@@ -456,8 +456,8 @@ def run(ctx):
     seqlen = ctx.pick(2, 3)
     strlen = ctx.pick(3, 4)
     alpha = [b[0] for b in SUB_QUICK]
-    # quick: udp is left to thorough (its state has the shape of tcp's)
-    bases = (list(G.FTYPES) if thorough else ["http", "ws", "tcp", "dns"]) + ["dumpfile-10.mitm"] + (["dumpfile-011.mitm", "dumpfile-018.mitm"] if thorough else [])
+    # quick: http and udp are left to thorough (the ws file contains a complete HTTP flow state, udp has the shape of tcp)
+    bases = (list(G.FTYPES) if thorough else ["ws", "tcp", "dns"]) + ["dumpfile-10.mitm"] + (["dumpfile-011.mitm", "dumpfile-018.mitm"] if thorough else [])
     full256 = set(G.FTYPES + ["dumpfile-10.mitm"]) if thorough else set()
 
     singles, pairs = rt_cases(thorough)
